@@ -165,7 +165,12 @@ pub fn gen_c10(tier: &str, seed: u64) -> Vec<Vec<String>> {
                 let mut text = String::new();
                 for _ in 0..r.range(0, 14) { text.push_str(r.pick_s(&alphabet)); }
                 let rxok = text.split('/').nth(1).map_or(true, |x| regex::Regex::new(x).is_ok());
-                if r.chance(1, 2) { c.push(format!("PARSE p{i} {} {}", hexs(&text), rxok as u8)); } else { c.push(format!("PARSENEW {} {}", hexs(&text), rxok as u8)); }
+                if r.chance(1, 2) { c.push(format!("PARSE p{i} {} {}", hexs(&text), rxok as u8)); if rxok && r.chance(1, 2) { c.push(format!("STARTSPECFILE p{i}")); } } else { c.push(format!("PARSENEW {} {}", hexs(&text), rxok as u8)); }
+            }
+            // the empty specification (no filter at all), however it was obtained
+            if r.chance(1, 3) {
+                c.push(format!("PARSE pe {} 1", r.pick_s(&["-", "20", "202c20", "2c"])));
+                c.push("STARTSPECFILE pe".into());
             }
             c.push("END".into());
             cases.push(c);
